@@ -45,6 +45,12 @@ type C04Scenario struct {
 	Prefetch uint32   `json:"prefetch,omitempty"`
 	NoNSEC   bool     `json:"rfc8198_off,omitempty"`
 	SlowMs   int      `json:"slow_ms,omitempty"` // upstream latency of the leaf zones (prefetch races)
+	// At SOADropAtS seconds of world time the leaf zones lower their SOA TTL and minimum to
+	// SOATTL2/SOAMin2 (operators do change them): denial records handed out before carry the
+	// old, longer TTL; a denial synthesised from them and the newer SOA inherits the shorter one.
+	SOADropAtS int    `json:"soa_drop_at_s,omitempty"`
+	SOATTL2    uint32 `json:"soa_ttl2,omitempty"`
+	SOAMin2    uint32 `json:"soa_min2,omitempty"`
 	Wire     bool     `json:"wire,omitempty"`    // queries enter as datagrams through the UDP engine (wire cache ladder) instead of Server.ServeMsg
 	Ops      []C04Op  `json:"ops"`
 }
@@ -99,6 +105,16 @@ func genC04(r *kit.RNG) *C04Scenario {
 	if r.Chance(0.3) {
 		sc.SlowMs = kit.Pick(r, []int{300, 1200})
 	}
+	if r.Chance(0.15) {
+		// denial recipe: a denial record cached with the zone's old, long negative TTL; the zone
+		// lowers it; another denial brings the newer SOA; a third name is then denied from the
+		// old record and the new SOA (RFC 8198), and must inherit the new SOA's short lifetime
+		sc.SOATTL, sc.SOAMin, sc.SOADropAtS, sc.SOATTL2, sc.SOAMin2 = 3600, 3600, 60, 20, kit.Pick(r, []uint32{20, 12, 30})
+		sc.NSTTL, sc.SigLifeS, sc.NoNSEC, sc.SlowMs = 86400, 86400*30, false, 0
+		do := r.Chance(0.5)
+		sc.Ops = append(sc.Ops, C04Op{GapMs: 1000, Name: 19, DO: do}, C04Op{GapMs: 61000, Name: 20, DO: do}, C04Op{GapMs: 2000, Name: 21, DO: do},
+			C04Op{GapMs: kit.Pick(r, []int{4000, 11000}), Name: 21, DO: r.Chance(0.5)}, C04Op{GapMs: 31000, Name: 21, DO: do})
+	}
 	pool := []int{r.Intn(c04NameCount), r.Intn(c04NameCount), r.Intn(c04NameCount)}
 	gaps := []int{200, 900, 1000, 2000, 4000, 4900, 5100, 6000, 11000, 29000, 31000, 61000, 299000, 301000, 3600000, 86390000, 86410000, 108000000}
 	n := r.Range(10, 60)
@@ -120,7 +136,7 @@ func genC04(r *kit.RNG) *C04Scenario {
 
 // names: [0,6) hostK.sig.test. | [6,12) hostK.plain.test. | 12 alias.sig -> host0.sig | 13 far.sig -> host1.plain
 // | 14 alias.plain -> host2.plain | 15 nx.sig | 16 a.b.nx.sig | 17 nx.plain | 18 a.nx.plain
-const c04NameCount = 19
+const c04NameCount = 22
 
 func c04Name(i int) string {
 	switch {
@@ -129,7 +145,9 @@ func c04Name(i int) string {
 	case i < 12:
 		return fmt.Sprintf("host%d.plain.test.", i-6)
 	}
-	return []string{"alias.sig.test.", "far.sig.test.", "alias.plain.test.", "nx.sig.test.", "a.b.nx.sig.test.", "nx.plain.test.", "a.nx.plain.test."}[i-12]
+	// 19-21: absent names whose proofs use different NSEC records: x/y.host0 need only the one at
+	// host0 (it also covers their wildcard), gg needs far->host0 and the apex record
+	return []string{"alias.sig.test.", "far.sig.test.", "alias.plain.test.", "nx.sig.test.", "a.b.nx.sig.test.", "nx.plain.test.", "a.nx.plain.test.", "x.host0.sig.test.", "gg.sig.test.", "y.host0.sig.test."}[i-12]
 }
 
 func c04Clamp(ttl uint32) time.Duration {
@@ -218,6 +236,11 @@ func c04Run(sc *C04Scenario, tr *kit.Trace, res *kit.Result) {
 						rr.(*dns.A).A = []byte{10, byte(now >> 16), byte(now >> 8), byte(now)}
 					}
 				}
+			}
+			soaRR := z.Nodes[name][dns.TypeSOA][0].(*dns.SOA)
+			if sc.SOADropAtS > 0 && int(now) >= sc.SOADropAtS {
+				z.SOATTL, z.SOAMin = sc.SOATTL2, sc.SOAMin2
+				soaRR.Hdr.Ttl, soaRR.Minttl = sc.SOATTL2, sc.SOAMin2
 			}
 			z.Nodes[name][dns.TypeSOA][0].(*dns.SOA).Serial = now
 			z.SigFrom = kit.Epoch.Add(-time.Hour)
@@ -395,6 +418,13 @@ func c04Run(sc *C04Scenario, tr *kit.Trace, res *kit.Result) {
 				neg := sc.SOATTL
 				if sc.SOAMin < neg {
 					neg = sc.SOAMin
+				}
+				if sc.SOADropAtS > 0 && int(soa.Serial) >= sc.SOADropAtS {
+					// this SOA was made after the zone lowered its negative TTLs
+					neg = sc.SOATTL2
+					if sc.SOAMin2 < neg {
+						neg = sc.SOAMin2
+					}
 				}
 				if !judge("the SOA of "+strings.ToLower(soa.Hdr.Name)+" (negative answer)", soa.Serial, soa.Hdr.Ttl, neg, strings.ToLower(soa.Hdr.Name) == "sig.test.") {
 					return
